@@ -448,16 +448,25 @@ Proof.
   destruct first as [rc c1]. cbn [fst snd] in H0. destruct H0 as [H1 H2].
   apply geo_proj in H2. destruct H2 as (E1 & E2 & E3).
   destruct rc; cbn [fst snd]; try (split4; [assumption|assumption|assumption|same_S]).
-  destruct (negb hy && _)%bool; cbn [fst snd]; [split4; [split; discriminate|fr|fr|same_S]|].
-  destruct (negb hy && _)%bool; cbn [fst snd]; [split4; [split; discriminate|fr|fr|same_S]|].
-  pose proof (tx_finalize_fr cb g i c1) as [F1 F2]. destruct (tx_finalize cb g i c1) as [rc2 c2]. cbn [fst snd] in F1, F2.
-  apply geo_proj in F2. destruct F2 as (G1 & G2 & G3).
-  destruct rc2; cbn [fst snd]; try (split4; [assumption|fr|fr|same_S]).
-  split4.
-  - split; discriminate.
-  - unfold rs_gD in *; cbn in *; congruence.
-  - unfold rs_rdo in *; cbn in *; congruence.
-  - intros _; unfold rs_S; cbn; split; intros; discriminate.
+  assert (W : forall ret c', (ret = ST_OK \/ ret = ST_DATA_OTHER) -> rs_geo c' = rs_geo c1 ->
+            let r := match tx_finalize cb g i c' with
+                     | (ST_OK, c2) => (ret, c2 <| c_out_tx := None |> <| c_out_state := RES_IDLE |>)
+                     | r => r end in
+            rs_nd (fst r) /\ rs_gD (snd r) = rs_gD c /\ rs_rdo (snd r) = rs_rdo c /\ (rs_S c -> rs_S (snd r))).
+  { intros ret c' Hret Hg. cbn zeta. apply geo_proj in Hg. destruct Hg as (K1 & K2 & K3).
+    pose proof (tx_finalize_fr cb g i c') as [F1 F2]. destruct (tx_finalize cb g i c') as [rc2 c2]. cbn [fst snd] in F1, F2.
+    apply geo_proj in F2. destruct F2 as (G1 & G2 & G3).
+    assert (E1' : rs_gD c2 = rs_gD c) by congruence. assert (E2' : rs_rdo c2 = rs_rdo c) by congruence.
+    assert (E3' : rs_gS c2 = rs_gS c) by congruence.
+    destruct rc2; cbn [fst snd]; try (split4; [assumption|assumption|assumption|same_S]).
+    split4.
+    - destruct Hret as [-> | ->]; split; discriminate.
+    - unfold rs_gD in *; cbn in *; congruence.
+    - unfold rs_rdo in *; cbn in *; congruence.
+    - intros _; unfold rs_S; cbn; split; intros; discriminate. }
+  destruct (negb hy && _)%bool; [apply W; [right; reflexivity|reflexivity]|].
+  destruct (negb hy && _)%bool; [apply W; [right; reflexivity|reflexivity]|].
+  apply W; [left; reflexivity|reflexivity].
 Qed.
 End Ops.
 
